@@ -3,7 +3,7 @@ import json, math
 from fractions import Fraction
 import numpy as np
 from harness import votelib as V, eliclib as E, smlib as S
-from harness.common import pmap, lean_query, guard, fr, safe_judge
+from harness.common import pmap, lean_query, guard, fr, safe_judge, persist, persist_rule
 from harness.c01 import chunks
 
 LEVEL = "proof"
